@@ -12,7 +12,7 @@ from engine.mir import E, apath, strip_refs, is_const, const_val, callee_name, s
 from engine.analyses import (peel_conv, guards_of, path_table, variant_of, contains_call, closure_consumer, truth_table)
 from engine.report import site_of
 from engine import tables
-from . import common, builders
+from . import common, builders, phonetic
 
 ORD = {"Less": -1, "Equal": 0, "Greater": 1}
 
@@ -446,6 +446,8 @@ def classify_source(prog, p):
                 return "dictionary"
     if contains_call(item, lambda n: n.endswith("search_corrected")):
         return "autocorrect"
+    if contains_call(item, lambda n: n.endswith("get_words_for")):
+        return "dictionary"
     pe = peel_conv(item)
     sp = self_path(pe)
     body = p.body
@@ -486,23 +488,44 @@ def _dictionary_base_is_transliteration(prog, p):
         key = pb.key if prog.fns[pb.key].get("kind") == "Closure" else None
         owner = pb
         hops += 1
-    # now base should be a &str parameter of the dictionary function; check its call sites
+    # now base should be a &str parameter of the dictionary function (possibly handed down through private helpers)
+    if key is None and not p.closure:
+        owner = p.body
     if base.k != "arg":
+        return _is_transliteration(prog, owner, base)
+    origins = _param_origins(prog, owner.key, base.a[0])
+    if not origins:
         return False
-    fn = owner.key
-    ok_sites = 0
-    for (caller, bb, t) in prog.call_sites.get(fn, []):
+    return all(_is_transliteration(prog, cb, e) for (cb, e) in origins)
+
+
+def _param_origins(prog, fn, pidx, depth=0):
+    """[(caller body, E)] the expressions bound to parameter pidx of fn at its call sites, followed up through parameters."""
+    out = []
+    sites = prog.call_sites.get(fn, [])
+    if not sites or depth > 4:
+        return []
+    for (caller, bb, t) in sites:
         cb = prog.body(caller)
-        a = peel_conv(cb.expr_operand(t["args"][base.a[0] - 1]))
-        sp = self_path(a)
-        # a clone of the scratch buffer written by convert_into(word)
-        good = False
-        if sp is not None:
-            for (bb2, t2) in cb.calls():
-                if callee_name(t2).endswith("Parser::convert_into") and self_path(cb.expr_operand(t2["args"][2])) == sp \
-                        and "phonetic" in repr(cb.expr_operand(t2["args"][0])):
-                    good = True
-        if not good:
-            return False
-        ok_sites += 1
-    return ok_sites >= 1
+        e = peel_conv(cb.expr_operand(t["args"][pidx - 1]))
+        if e.k == "arg" and prog.fns[caller].get("kind") != "Closure":
+            up = _param_origins(prog, caller, e.a[0], depth + 1)
+            if not up:
+                return []
+            out.extend(up)
+        else:
+            out.append((cb, e))
+    return out
+
+
+def _is_transliteration(prog, cb, e):
+    """e is (a clone of) the scratch buffer that convert_into(phonetic parser, word) wrote in cb."""
+    a = peel_conv(e)
+    sp = self_path(a)
+    if sp is None:
+        return False
+    for (bb2, t2) in cb.calls():
+        if callee_name(t2).endswith("Parser::convert_into") and self_path(cb.expr_operand(t2["args"][2])) == sp \
+                and phonetic.is_phonetic_parser(prog, cb.expr_operand(t2["args"][0])):
+            return True
+    return False
